@@ -112,6 +112,12 @@ OBLIGATIONS = [
          pre=lambda a: [a.v < 2 * M62],
          post=lambda a, r: [("canonical", r.x < M62), ("congruence", cong(r.x, a.v, M62))],
          text="f62 normalize: every representation < 2M maps to the canonical value < M"),
+    dict(name="f62_as_int", func=("::as_int", "(_1: &f62::BaseElement) -> u64"), args=[("x", "f62")],
+         pre=lambda a: [a.x < 2 * M62], ub={"x": 2 * M62 - 1},
+         post=lambda a, r: [("canonical r < M", r.x < M62), ("congruence r*R == x (mod M)", cong(r.x * R, a.x, M62))],
+         native="f62.as_int", native_check=lambda v, o: o[0] < M62 and (o[0] * R - v[0]) % M62 == 0,
+         concrete_pre=lambda v: v[0] < 2 * M62,
+         text="f62 as_int: every representation < 2M (including M, the other zero) maps to the canonical value < M with r*R == x (mod M)"),
     dict(name="f62_new", func=("::new", "(_1: u64) -> f62::BaseElement"), args=[("v", "u64")],
          post=lambda a, r: [("range", r.x < 2 * M62), ("congruence r == v*R (mod M)", cong(r.x, a.v * R, M62))],
          native="f62.new", native_check=lambda v, o: o[0] < 2 * M62 and (o[0] - v[0] * R) % M62 == 0,
